@@ -105,7 +105,11 @@ class ScopeGen:
         prog = self.block(3, "mission")
         if self.rng.random() < 0.3:
             # spawned code sees none of the starter's locals (it runs after the starter: the main script is not preempted)
-            prog = [{"k": "private", "name": "_a", "x": self.val()}] + prog + [{"k": "spawn", "body": [probe("_a"), probe("_A"), rd("g"), G.assign("_a", self.val()), rd("_a")]}]
+            sp = {"k": "spawn", "body": [probe("_a"), probe("_A"), rd("g"), G.assign("_a", self.val()), rd("_a"), G.assign("h", self.val()), G.st_expr(G.call([G.assign("g", self.val()), rd("g")]))]}
+            if self.rng.random() < 0.5:
+                # started inside a with-do block: the new script has no enclosing with-do, its globals are the mission's
+                sp = G.st_expr({"k": "within", "ns": self.rng.choice(["ui", "parsing"]), "body": [G.assign("g", self.val()), sp, rd("g")]})
+            prog = [{"k": "private", "name": "_a", "x": self.val()}] + prog + [sp]
         prog.append(G.mark(G.arr(G.var("g"), G.var("h"), {"k": "getvar", "ns": "ui", "name": "g"}, {"k": "getvar", "ns": "ui", "name": "h"})))
         return prog
 
@@ -138,6 +142,12 @@ def systematic():
     P({"k": "private", "name": "_a", "x": n(1)}, G.st_expr(G.call([{"k": "privates", "name": "_a"}, probe("_a"), G.assign("_a", n(2)), rd("_a")])), rd("_a"))
     # spawn sees none of the starter's locals
     P({"k": "private", "name": "_a", "x": n(1)}, G.assign("g", n(3)), {"k": "spawn", "body": [probe("_a"), rd("g")]}, rd("_a"))
+    # ... and nothing of the starter's with-do: a script started inside `with uiNamespace do` resolves its globals in the mission namespace
+    for wrap in ("direct", "call"):
+        sp = {"k": "spawn", "body": [rd("g"), G.assign("h", n(7)), rd("h"), G.st_expr(G.call([G.assign("g", n(8)), rd("g")]))]}
+        inner = [sp] if wrap == "direct" else [G.st_expr(G.call([sp]))]
+        P(G.assign("g", n(1)), {"k": "setvar", "ns": "ui", "name": "g", "x": n(2)}, G.st_expr({"k": "within", "ns": "ui", "body": [rd("g")] + inner + [rd("g")]}), rd("g"),
+          M(A({"k": "getvar", "ns": "ui", "name": "g"}, {"k": "getvar", "ns": "ui", "name": "h"}, {"k": "getvar", "ns": "mission", "name": "h"})))
     # globals: case-insensitive, namespace of the innermost dynamically enclosing with-do
     P(G.assign("g", n(1)), rd("G"), G.assign("G", n(2)), rd("g"))
     for inner in ("direct", "call", "if", "foreach", "nested-with"):
